@@ -1066,6 +1066,10 @@ func (s *SecureChannel) sendAsyncWithTimeout(
 	return resp, nil
 }
 
+// responseWriteTimeout is the time a peer has to take a chunk of a response
+// off the socket before its connection is dropped.
+const responseWriteTimeout = 5 * time.Second
+
 func (s *SecureChannel) writeMessageChunks(ctx context.Context, instance *channelInstance, reqID uint32, m *Message, body any) (int, error) {
 	// Large service payloads may exceed a single UASC message body. Encode the
 	// full logical message up front, then stream each chunk in sequence while the
@@ -1107,8 +1111,15 @@ func (s *SecureChannel) writeMessageChunks(ctx context.Context, instance *channe
 
 		// UASC writes are expected to flush complete chunks. Treat short writes as
 		// a hard error instead of silently truncating the response stream.
+		// A peer which stops reading must not block the sender forever: the
+		// server sends all responses from a single goroutine, so one stalled
+		// connection would stop it from answering every other client. The
+		// stream is unusable after a failed or partial write, so drop it.
+		s.c.SetWriteDeadline(time.Now().Add(responseWriteTimeout))
 		n, err := s.c.Write(chunk)
+		s.c.SetWriteDeadline(time.Time{})
 		if err != nil {
+			s.c.Close()
 			return bytesSent, err
 		}
 		if len(chunk) != n {
